@@ -293,6 +293,51 @@ def matchpy_bridge(tier):
         if why:
             b.fail(Failure("matchpy-bridge", f"{'cause=star-wildcard-crash ' if why.startswith('cause=star') else ''}what=match pattern={pat!r} subject={subj!r} why={why}", dict(kind="mp-match", pattern=trees.src(pat), subject=trees.src(subj)),
                            expected="sound matches", actual=why[:300], functions=["pymbolic.interop.matchpy.match"]))
+    # match_anywhere: every reported (substitution, subexpression): the subexpression is a subtree of the subject and instantiating the pattern
+    # gives it; every subtree that is an instance of the pattern (found by the independent instantiation test over all bindings the matcher
+    # reported for it elsewhere) is reported
+    def subtrees(t):
+        yield t
+        if isinstance(t, p.Expression):
+            for ch in api.children(t):
+                yield from subtrees(ch)
+        elif isinstance(t, tuple):
+            for ch in t:
+                yield from subtrees(ch)
+    anywhere = [(p.Sum((a, w)), p.Product((p.Sum((a, b_)), p.Call(f, (p.Sum((a, c)),)), d))),
+                (p.Call(f, (w,)), p.Sum((p.Call(f, (a,)), p.Product((2, p.Call(f, (p.Call(f, (b_,)),)))), c))),
+                (p.Power(w, 2), p.Quotient(p.Power(a, 2), p.Sum((p.Power(p.Sum((b_, 1)), 2), p.Power(c, 3))))),
+                (p.Product((2, w)), p.Sum((p.Product((2, a)), p.Product((b_, 2)), p.Call(f, (p.Product((2, p.Sum((c, d)))),)), 2))),
+                (p.Quotient(w, b_), p.Sum((p.Quotient(a, b_), p.Quotient(c, d), p.Quotient(p.Quotient(x, b_), b_))))]
+    for pat, subj in anywhere:
+        r = outcome.run(lambda: list(m.match_anywhere(subj, pat)))
+        b.case(("anywhere", repr(pat), repr(subj)), nontrivial=True, sample=dict(pattern=repr(pat), subject=repr(subj), function="match_anywhere"))
+        why = None
+        if r[0] != "val":
+            why = outcome.describe(r)[:200]
+        else:
+            subs = [ac_norm(t) for t in subtrees(subj) if isinstance(t, p.Expression)]
+            found = []
+            for subst, sub in r[1]:
+                if ac_norm(sub) not in subs:
+                    why = f"reported subexpression {sub!r} is not a subtree of the subject"
+                    break
+                inst = outcome.run(lambda: inst_wild(pat, subst))
+                if inst[0] != "val" or ac_norm(inst[1]) != ac_norm(sub):
+                    why = f"substitution {dict(subst)!r} instantiates to {inst[1] if inst[0] == 'val' else inst!r}, reported subexpression {sub!r}"
+                    break
+                found.append(ac_norm(sub))
+            if why is None:
+                # completeness against matching each subtree on its own
+                for t in subtrees(subj):
+                    if isinstance(t, p.Expression):
+                        direct = outcome.run(lambda: list(m.match(t, pat)))
+                        if direct[0] == "val" and direct[1] and ac_norm(t) not in found:
+                            why = f"subtree {t!r} matches the pattern on its own but match_anywhere does not report it"
+                            break
+        if why:
+            b.fail(Failure("matchpy-bridge", f"what=match-anywhere pattern={pat!r} subject={subj!r} why={why[:200]}", dict(kind="mp-anywhere", pattern=trees.src(pat), subject=trees.src(subj)),
+                           expected="exactly the matching subtrees with sound substitutions", actual=why[:300], functions=["pymbolic.interop.matchpy.match_anywhere", "_get_operand_at_path"]))
     # replacement with multiplicities: a*c*ws -> 6*ws
     from pytools import product
     from pymbolic.mapper.evaluator import EvaluationMapper
